@@ -260,6 +260,19 @@ def section_product():
                         data[(i, j) + n] = rnd((dims[0][i], dims[1][j]))
         return BlockSeries(data=data, shape=(nb_rows, nb_cols), n_infinite=ninf)
 
+    def restyle(S, style):
+        """the same series defined differently: all values as data; through an eval function given at construction; zeroth order as data and the
+        eval function assigned after construction (the idiom for recurrently defined series: `S = BlockSeries(data=...); S.eval = f`)"""
+        data = dict(S._data)
+        ninf = S.n_infinite
+        if style == "data":
+            return BlockSeries(data=data, shape=S.shape, n_infinite=ninf)
+        if style == "eval":
+            return BlockSeries(eval=lambda *idx: data.get(idx, zero), shape=S.shape, n_infinite=ninf)
+        T = BlockSeries(data={k: v for k, v in data.items() if sum(k[len(S.shape):]) == 0}, shape=S.shape, n_infinite=ninf)
+        T.eval = lambda *idx: data.get(idx, zero)
+        return T
+
     def dense(x, shp):
         if x is zero:
             return np.zeros(shp, dtype=complex)
@@ -289,15 +302,17 @@ def section_product():
                 nbs = [int(rng.integers(1, 3)) for _ in range(nf + 1)]
                 dimlist = [[int(rng.integers(1, 3)) for _ in range(nb)] for nb in nbs]
                 fs = [mkseries(nbs[k], nbs[k + 1], (dimlist[k], dimlist[k + 1]), ninf, maxo, 0.3) for k in range(nf)]
-                P = cauchy_dot_product(*fs)
-                for i in range(nbs[0]):
-                    for j in range(nbs[-1]):
-                        for n in itertools.product(range(maxo + 1), repeat=ninf):
-                            cases += 1
-                            got = dense(P[(i, j) + n], (dimlist[0][i], dimlist[-1][j]))
-                            want = brute(fs, dimlist, i, j, n, ninf)
-                            if not np.allclose(got, want):
-                                fail("product", "cauchy_dot_product differs from the double sum", factors=nf, ninf=ninf, index=(i, j) + n)
+                for style in ("data", "eval", "late-eval"):
+                    # the product is requested BEFORE any element of the factors has been evaluated; highest orders first
+                    P = cauchy_dot_product(*[restyle(f, style) for f in fs])
+                    for i in range(nbs[0]):
+                        for j in range(nbs[-1]):
+                            for n in reversed(list(itertools.product(range(maxo + 1), repeat=ninf))):
+                                cases += 1
+                                got = dense(P[(i, j) + n], (dimlist[0][i], dimlist[-1][j]))
+                                want = brute(fs, dimlist, i, j, n, ninf)
+                                if not np.allclose(got, want):
+                                    fail("product", "cauchy_dot_product differs from the double sum", factors=nf, ninf=ninf, index=(i, j) + n, factors_defined_by=style)
     # hermitian=True on adjoint pairs, 2 and 3 factors, with `one` at zeroth order
     from sympy.physics.quantum import Dagger
     for ninf, maxo in ((1, 3), (2, 2)):
